@@ -37,4 +37,39 @@ PROPS = {
                      "Vec/Box/Arc/String allocation behaviour is std's; addresses are canonicalised to offsets"],
         trusted=["Rust std allocation behaviour of Vec/Box/Arc/String (modelled as base/len/cap triples)"],
     ),
+    "C16": dict(
+        driver="C16",
+        model="Model/SockAddr.v",
+        run_fn="run_sacase",
+        theorems=["C16_sockaddr_roundtrip_except_unix_path", "C16_h7_unix_path_reads_back_unnamed",
+                  "C16_sockaddr_roundtrip_refuted", "C16_sockaddr_roundtrip_fails",
+                  "C16_ptr_len_covers_except_short_abstract", "C16_h8_unix_abstract_arrives_padded",
+                  "C16_ptr_len_covers_refuted", "C16_ptr_len_covers_fails",
+                  "C16_bind_getsockname_roundtrip_except_unix",
+                  "C16_sockaddr_roundtrip_fixed", "C16_ptr_len_covers_family_struct_fixed",
+                  "C16_bind_getsockname_roundtrip_fixed"],
+        rule="sweep first: Unix pathnames of every length 1..107 and abstract names of every length 0..107 "
+             "(2 each, bytes from three styles incl. non-UTF-8 and embedded/trailing NULs for names), unnamed, "
+             "NoAddress, 10 boundary ports x 4 IPv4 addresses and x 16 (flowinfo, scope_id) boundary pairs for IPv6, "
+             "each through the family type and through SocketAddr; corpus for H7/H8 and a 108-byte pathname reply; "
+             "then one splitmix64 stream per case (VERIF_SEED, index): class in {IPv4, IPv6, path, abstract, unnamed, "
+             "NoAddress, raw sockaddr_un contents, raw sockaddr_in/in6 contents}, filler byte for the unwritten part "
+             "of the storage, 0..2 extra reported lengths (incl. ones that trip the debug assertions); "
+             "thorough adds real bind/getsockname on Unix (temp dir, abstract) and loopback sockets; "
+             "non-trivial = any case but NoAddress; distinct by the Coq case term",
+        assumptions=["x86-64 Linux layouts: sockaddr_in 16, sockaddr_in6 28, sockaddr_un 2+108 bytes, little-endian "
+                     "(asserted by the harness against libc at start-up)",
+                     "Unix pathnames of 1..107 bytes without NUL and abstract names of 0..107 bytes: what "
+                     "std::os::unix::net::SocketAddr can hold (108 bytes are refused by std; recorded in the evidence)",
+                     "Linux's reading of a (pointer, length) name and the length it reports (kernel_view, wire, "
+                     "kernel_len) are stated from unix(7)/ip(7)/ipv6(7) and net/unix/af_unix.c; the thorough tier "
+                     "corroborates them on the running kernel",
+                     "sin6_flowinfo is the u32 std stores, in host order (as std itself converts it)",
+                     "init is only given lengths up to the as_mut_ptr capacity (a 108-byte pathname makes Linux "
+                     "report 111 > 110: outside the quantification, noted in the report)",
+                     "debug build: a failing debug_assert! in init is the outcome None of the model"],
+        trusted=["std's SocketAddr::{from_pathname, from_abstract_name, as_pathname, as_abstract_name, is_unnamed} "
+                 "(modelled by from_pathname/UnAbstract of Model/SockAddr.v; exercised by every Unix case)",
+                 "Linux address semantics as stated in kernel_view/wire/kernel_len (coq/Proofs/SockAddrProofs.v)"],
+    ),
 }
